@@ -17,13 +17,13 @@ Lemma malloc_ok dirty st n :
     cur_len st' = cur_len st + Z.to_N n /\
     live st' = r :: live st /\ roff r = cur_len st /\ rlen r = Z.to_N n /\
     same_aux st st' /\
-    (cur st' = None <-> cur st = None /\ Z.to_N n = 0).
+    (cur st' = None <-> cur st = None /\ Z.to_N n = 0) /\ tgt_pres st st'.
 Proof.
   intros HI Herr Hn. unfold malloc. rewrite Herr.
   destruct (Z.ltb_spec n 0) as [Hneg|_]; [exfalso; lia|].
   remember (Z.to_N n) as m eqn:Em.
   destruct (acquire_ok dirty st m HI) as (st1 & E & HP & Hn0). rewrite E. cbn [bind].
-  destruct HP as (HI1 & HL1 & Hl1 & Hroom & Haux & Hlive & Hnone).
+  destruct HP as (HI1 & HL1 & Hl1 & Hroom & Haux & Hlive & Hnone & Htp).
   destruct (N.leb_spec (cur_len st1 + m) (cur_cap st1)) as [_|Hbad]; [|exfalso; lia].
   pose proof HI1 as [Hc1 Hcap1 Hown1 Hrch1].
   unfold cur_len at 1 in Hl1. unfold cur_len in Hroom, Hrch1. unfold cur_cap in Hroom, Hcap1. unfold Lof at 1 in HL1.
@@ -31,7 +31,7 @@ Proof.
   - exists (with_live (with_mem st1 (store st1) (Some (c, l + m)) (pend st1)) (mkreg c l m :: live st1)),
       (mkreg c l m), (take m (drop l (block (store st1) c))).
     split; [reflexivity|].
-    split; [|split; [|split; [|split; [|split; [|split; [|split; [|split]]]]]]].
+    split; [|split; [|split; [|split; [|split; [|split; [|split; [|split; [|split]]]]]]]].
     + constructor; simp_st.
       * apply chain_bump; assumption.
       * unfold cur_cap. simp_st. exact Hcap1.
@@ -48,10 +48,19 @@ Proof.
     + reflexivity.
     + exact Haux.
     + simp_st. split; [discriminate|]. intros (Hcn & Hm0). specialize (Hn0 Hm0). subst st1. congruence.
+    + eapply tgt_pres_trans; [exact Htp|]. intros b tl Hok. split; [|reflexivity].
+      destruct Hok as [->|[(Hlt & Hnin)|(Hh & Hall)]].
+      * left; reflexivity.
+      * right; left. unfold cblocks in *. simp_st. rewrite Ec in Hnin. split; assumption.
+      * destruct (head_at_facts _ _ _ HI1 Hh) as (_ & Htl & _). unfold cur_len in Htl. rewrite Ec in Htl.
+        right; right. split.
+        -- unfold head_at in *. simp_st. rewrite Ec in Hh.
+           destruct (pend st1) as [|[pb lb] rest]; [|exact Hh]. destruct Hh as (-> & Hh). split; [reflexivity | lia].
+        -- simp_st. constructor; [cbn [roff]; exact Htl | exact Hall].
   - assert (Hm0 : m = 0) by lia.
     exists (with_live st1 (mkreg O 0 0 :: live st1)), (mkreg O 0 0), [].
     split; [reflexivity|].
-    split; [|split; [|split; [|split; [|split; [|split; [|split; [|split]]]]]]].
+    split; [|split; [|split; [|split; [|split; [|split; [|split; [|split; [|split]]]]]]]].
     + constructor; simp_st.
       * rewrite Ec. exact Hc1.
       * unfold cur_cap. simp_st. rewrite Ec. exact Hcap1.
@@ -67,6 +76,11 @@ Proof.
     + cbn [rlen]. lia.
     + exact Haux.
     + simp_st. rewrite Ec. split; [intros _; split; [now apply Hnone | exact Hm0] | reflexivity].
+    + eapply tgt_pres_trans; [exact Htp|]. intros b tl Hok. split; [|reflexivity].
+      destruct Hok as [->|[(Hlt & Hnin)|(Hh & Hall)]].
+      * left; reflexivity.
+      * right; left. unfold cblocks in *. simp_st. split; assumption.
+      * exfalso. unfold head_at in Hh. rewrite Ec in Hh. rewrite Hc1 in Hh. exact Hh.
 Qed.
 
 Lemma malloc_err dirty st n e : werr st = Some e -> malloc dirty st n = Err e.
@@ -82,12 +96,12 @@ Lemma write_binary_ok dirty st bs :
     Lof st' = Lof st ++ bs /\
     cur_len st' = cur_len st + len bs /\
     live st' = live st /\ same_aux st st' /\
-    (cur st' = None <-> cur st = None /\ len bs = 0).
+    (cur st' = None <-> cur st = None /\ len bs = 0) /\ tgt_pres st st'.
 Proof.
   intros HI Herr. unfold write_binary. rewrite Herr.
   remember (len bs) as m eqn:Em.
   destruct (acquire_ok dirty st m HI) as (st1 & E & HP & Hn0). rewrite E. cbn [bind].
-  destruct HP as (HI1 & HL1 & Hl1 & Hroom & Haux & Hlive & Hnone).
+  destruct HP as (HI1 & HL1 & Hl1 & Hroom & Haux & Hlive & Hnone & Htp).
   replace (N.min (cur_cap st1 - cur_len st1) m) with m by lia.
   pose proof HI1 as [Hc1 Hcap1 Hown1 Hrch1].
   unfold cur_len at 1 in Hl1. unfold cur_len in Hroom, Hrch1. unfold cur_cap in Hroom, Hcap1. unfold Lof at 1 in HL1.
@@ -97,7 +111,7 @@ Proof.
     pose proof (chain_bump _ _ m _ _ _ Hc1 Hroom) as Hcb.
     pose proof (owns_new _ _ m _ _ _ Hc1) as Hon.
     eexists. split; [reflexivity|].
-    split; [|split; [|split; [|split; [|split]]]].
+    split; [|split; [|split; [|split; [|split; [|split]]]]].
     + constructor; simp_st.
       * apply chain_fill; [exact Hcb | exact Hcl | rewrite <- Em; lia].
       * unfold cur_cap. simp_st. rewrite len_block_write; [exact Hcap1 | exact Hcl | rewrite <- Em; lia].
@@ -116,15 +130,31 @@ Proof.
     + simp_st. exact Hlive.
     + exact Haux.
     + simp_st. split; [discriminate|]. intros (Hcn & Hm0). specialize (Hn0 Hm0). subst st1. congruence.
+    + eapply tgt_pres_trans; [exact Htp|]. intros b tl Hok.
+      destruct Hok as [->|[(Hlt & Hnin)|(Hh & Hall)]].
+      * split; [left; reflexivity | reflexivity].
+      * assert (Hbc : b <> c).
+        { intros ->. apply Hnin. unfold cblocks. rewrite Ec. apply in_or_app. right. left. reflexivity. }
+        split.
+        -- right; left. unfold cblocks in *. simp_st. rewrite Ec in Hnin. rewrite length_write. split; assumption.
+        -- simp_st. now rewrite block_write_ne.
+      * destruct (head_at_facts _ _ _ HI1 Hh) as (_ & Htl & _). unfold cur_len in Htl. rewrite Ec in Htl.
+        split.
+        -- right; right. split; [|simp_st; exact Hall].
+           unfold head_at in *. simp_st. rewrite Ec in Hh.
+           destruct (pend st1) as [|[pb lb] rest]; [|exact Hh]. destruct Hh as (-> & Hh). split; [reflexivity | lia].
+        -- simp_st. destruct (Nat.eq_dec b c) as [->|Hbc]; [|now rewrite block_write_ne].
+           rewrite block_write_eq by assumption. apply take_psplice_after; lia.
   - assert (Hm0 : m = 0) by lia.
     assert (Hbs : bs = []) by (destruct bs; [reflexivity | rewrite len_cons in Em; lia]).
     exists st1. split; [now rewrite Hm0|].
-    split; [exact HI1|]. split; [|split; [|split; [|split]]].
+    split; [exact HI1|]. split; [|split; [|split; [|split; [|split]]]].
     + unfold Lof at 1. rewrite Ec, Hbs, app_nil_r. exact HL1.
     + unfold cur_len at 1. rewrite Ec. lia.
     + exact Hlive.
     + exact Haux.
     + rewrite Ec. split; [intros _; split; [now apply Hnone | exact Hm0] | reflexivity].
+    + exact Htp.
 Qed.
 
 Lemma write_binary_err dirty st bs e : werr st = Some e -> write_binary dirty st bs = Err e.
@@ -144,17 +174,18 @@ Lemma fill_ok st k off data st' :
   Inv st -> fill st k off data = Some st' ->
   exists r, region_at st k = Some r /\ off + len data <= rlen r /\ roff r + rlen r <= cur_len st /\
     Inv st' /\ Lof st' = psplice (Lof st) (roff r + off) data /\
-    cur st' = cur st /\ live st' = live st /\ same_aux st st'.
+    cur st' = cur st /\ live st' = live st /\ same_aux st st' /\ tgt_pres st st'.
 Proof.
   intros HI. unfold fill. destruct (region_at st k) as [r|] eqn:Er; [|discriminate].
   destruct (N.leb_spec (off + len data) (rlen r)) as [Hle|]; [|discriminate].
-  intros H. inversion H; subst st'; clear H.
+  intros H. assert (Hst : st' = with_mem st (write (store st) (rid r, roff r + off) data) (cur st) (pend st)) by congruence.
+  subst st'; clear H.
   pose proof (region_at_in _ _ _ Er) as Hin.
   pose proof HI as [Hc Hcap Hown Hrch].
   pose proof (rchain_bound _ _ _ Hrch Hin) as Hb.
   exists r. split; [reflexivity|]. split; [exact Hle|]. split; [exact Hb|].
   destruct data as [|x data'] eqn:Ed.
-  - rewrite write_nil, with_mem_id. split; [exact HI|]. rewrite psplice_nil. repeat split.
+  - rewrite write_nil, with_mem_id. split; [exact HI|]. rewrite psplice_nil. repeat split; auto.
   - rewrite <- Ed in *. assert (Hpos : 0 < len data) by (rewrite Ed, len_cons; lia).
     rewrite Forall_forall in Hown. pose proof (Hown r Hin) as Hr. unfold region_owned in Hr.
     unfold cur_len in Hb.
@@ -162,17 +193,33 @@ Proof.
     assert (Ho : owns (pend st) 0 c l (rid r) (roff r + off) (roff r + off + len data)).
     { eapply owns_sub; [apply Hr; lia | lia | lia]. }
     destruct (owns_bound _ _ _ _ _ _ _ _ Hc Ho) as (Hid & Hbd).
-    split; [|split; [|split; [|split]]].
-    + constructor; simp_st.
-      * rewrite Ec. now apply chain_fill.
-      * unfold cur_cap. simp_st. rewrite Ec. rewrite len_block_write by assumption.
-        unfold cur_cap in Hcap. rewrite Ec in Hcap. exact Hcap.
+    split; [|split; [|split; [|split; [|split]]]].
+    + constructor; simp_st; try rewrite Ec.
+      * now apply chain_fill.
+      * unfold cur_cap in *. simp_st. rewrite Ec in *. rewrite len_block_write by assumption.
+        exact Hcap.
       * apply Forall_forall. intros r' Hr'. eapply region_owned_same; [| |exact (Hown r' Hr')]; simp_st; congruence.
-      * unfold cur_len. simp_st. rewrite Ec. unfold cur_len in Hrch. rewrite Ec in Hrch. exact Hrch.
+      * unfold cur_len in *. simp_st. rewrite Ec in *. exact Hrch.
     + unfold Lof. simp_st. rewrite Ec. rewrite stitched_fill by assumption. now rewrite N.sub_0_r.
     + simp_st. congruence.
     + reflexivity.
     + repeat split.
+    + intros b tl Hok.
+      pose proof (owns_in _ _ _ _ _ _ _ Ho) as Hinb.
+      destruct Hok as [->|[(Hlt & Hnin)|(Hh & Hall)]].
+      * split; [left; reflexivity | reflexivity].
+      * assert (Hbr : b <> rid r).
+        { intros ->. apply Hnin. unfold cblocks. rewrite Ec. apply in_or_app.
+          destruct Hinb as [Hi| ->]; [left; exact Hi | right; left; reflexivity]. }
+        split.
+        -- right; left. unfold cblocks in *. simp_st. rewrite length_write. rewrite Ec in Hnin. split; assumption.
+        -- simp_st. now rewrite block_write_ne.
+      * split.
+        -- right; right. split; [|simp_st; exact Hall]. unfold head_at in *. simp_st. rewrite Ec in Hh. exact Hh.
+        -- simp_st. destruct (Nat.eq_dec b (rid r)) as [->|Hbr]; [|now rewrite block_write_ne].
+           rewrite block_write_eq by assumption.
+           rewrite Forall_forall in Hall. specialize (Hall r Hin).
+           apply take_psplice_after; lia.
 Qed.
 
 (* ---------- Flush ---------- *)
@@ -186,6 +233,8 @@ Proof. intros H H1. unfold flush. now rewrite H, H1. Qed.
 Lemma flush_ok st c l :
   Inv st -> werr st = None -> cur st = Some (c, l) ->
   exists h', length h' = length (store st) /\ (forall j, len (block h' j) = len (block (store st) j)) /\
+    (c < length h')%nat /\ take l (block h' c) = Lof st /\
+    stitched h' (pend st) 0 c l = Lof st /\
     flush st =
     Ok (let '(k', e) := sink_write (sink st) (c, l) (Lof st) in
         match e with
@@ -202,9 +251,13 @@ Lemma flush_ok st c l :
         end).
 Proof.
   intros HI Herr Ec. pose proof HI as [Hc _ _ _]. rewrite Ec in Hc.
-  destruct (stitch_flush _ _ _ _ Hc) as (h' & off & E & Et & Eo & En & Elc).
-  exists h'. split; [exact En|]. split.
+  destruct (stitch_flush _ _ _ _ Hc) as (h' & off & E & Et & Eo & En & Elc & Eb).
+  destruct (chain_cur _ _ _ _ _ Hc) as (_ & Hcl).
+  exists h'. split; [exact En|]. split; [|split; [|split; [|split]]].
   - intros j. destruct (Nat.eq_dec j c) as [->|Hne]; [exact Elc | now rewrite Eo].
+  - lia.
+  - unfold Lof. rewrite Ec. exact Et.
+  - unfold Lof. rewrite Ec. apply (stitched_after _ _ _ _ _ _ [] (drop l (block (store st) c)) Hc Eo); [exact Eb | reflexivity].
   - unfold flush. rewrite Herr, Ec, E. cbn [bind fst]. rewrite Et.
     unfold Lof. rewrite Ec.
     destruct (sink_write (sink st) (c, l) (stitched (store st) (pend st) 0 c l)) as [k' [e|]]; reflexivity.
